@@ -62,6 +62,7 @@ class Oracle:
         if self.failed_name is None:
             raise AnalysisError("analyze_compiler_output result not bound", rule="C15-R1",
                                 anchor=self.f.qualname)
+        self.free = []
 
     def atom_of(self, at):
         fname = self.failed_name
@@ -96,7 +97,18 @@ class Oracle:
         return f
 
     def cond(self, node):
-        return conj(guards(node), self.atom_of(node))
+        base = self.atom_of(node)
+
+        def total(leaf):
+            a = base(leaf)
+            if a is not None:
+                return a
+            # a test that is none of C/F/O/E: a free atom - the decision table must hold whatever its value
+            name = "X:" + " ".join(src(leaf).split())[:60]
+            if name not in self.free:
+                self.free.append(name)
+            return (name, True)
+        return conj(guards(node), total)
 
     def gtext(self, node):
         return [("" if p else "not ") + src(t) for t, p in flat_guards(node)]
@@ -124,15 +136,26 @@ def r1_table(repo):
         obs.append(Ob("C15-R1", "site:" + " & ".join(o.gtext(st)), _w(o.f, st), key_ok,
                       "report store `%s` must be output[pid] = <proc_res>.stats" % src(st),
                       {"guards": o.gtext(st)}))
+    # also every early `return` of the function restricts what is reported: a store is effective only if no
+    # earlier return was taken; early returns are part of each store's guards (negated leaving-ifs), so they are
+    # already in `conds`.  Free atoms (tests other than C/F/O/E) are quantified universally.
+    if len(o.free) > 4:
+        raise AnalysisError("too many unknown tests around the report sites: %s" % o.free, rule="C15-R1", anchor=o.f.qualname)
     for env in rows(ATOMS):
-        got = any(c(env) for c in conds)
+        verdicts = set()
+        for fenv in rows(o.free):
+            e2 = dict(env)
+            e2.update(fenv)
+            verdicts.add(any(c(e2) for c in conds))
         want = spec(env)
+        got = want if verdicts == {want} else (not want)
         obs.append(Ob("C15-R1", "row:" + row_str(env), _w(o.f), got == want,
                       "decision table row [%s]: check_oracle %s the program, specification "
                       "F or C or (O and E) or (not O and not E) says %s" % (
                           row_str(env), "reports" if got else "does not report",
-                          "report" if want else "do not report"),
-                      {"reported": got, "expected": want}))
+                          "report" if want else "do not report") +
+                      (" (for some value of the additional tests %s)" % o.free if o.free else ""),
+                      {"reported": got, "expected": want, "free_tests": list(o.free)}))
     return obs
 
 
@@ -146,9 +169,17 @@ def _error_stores(o):
 
 
 def _region(o, st):
-    """classify a statement by its path condition: returns the set of rows (as tuples) it executes on."""
+    """classify a statement by its path condition: the set of C/F/O/E rows on which it may execute
+    (for some value of the free tests)."""
     c = o.cond(st)
-    return frozenset(tuple(env.values()) for env in rows(ATOMS) if c(env))
+    out = set()
+    for env in rows(ATOMS):
+        for fenv in rows(o.free):
+            e2 = dict(env)
+            e2.update(fenv)
+            if c(e2):
+                out.add(tuple(env.values()))
+    return frozenset(out)
 
 
 def r2_message(repo):
@@ -609,6 +640,12 @@ def _v_crash_msg_dropped(tree):
     V.remove_stmt(tree, st)
 
 
+def _v_fast_path(tree):
+    fn = _co(tree)
+    lp = V.one([n for n in fn.body if isinstance(n, ast.For) and "oracles.items()" in ast.unparse(n.iter)])
+    V.insert_before(tree, lp, V.parse_stmts("if cli_args.only_correctness_preserving_transformations and not failed:\n    shutil.rmtree(dirname)\n    return {}, compilation_time"))
+
+
 def _t_reorder(tree):
     fn = _co(tree)
     V.rename_local(fn, "proc_res", "pres")
@@ -629,6 +666,7 @@ def variants():
         V.Variant("iteration += 1 instead of batch", f, _v_iteration_plus_one, {"C15-R5"}),
         V.Variant("incorrect program registered as expected-to-compile", f, _v_incorrect_always, {"C15-R6"}),
         V.Variant("exception gives ProgramRes(False)", f, _v_exception_not_failed, {"C15-R6"}),
+        V.Variant("-P fast path returns before tool failures are reported", f, _v_fast_path, {"C15-R1"}),
         V.Variant("twin: rename locals in check_oracle", f, _t_reorder, None, twin=True),
         V.Variant("twin: whole tree reformatted by ast.unparse", None, None, None, twin=True),
     ]
